@@ -61,6 +61,18 @@ def kernel_cases(rep, rng, tier):
             rep.violation("accelerated kernel differs from the direct double sum", {"case": ci, "n": n, "m": m,
                                                                                      "length_scale": L,
                                                                                      "max_abs_diff": float(np.max(np.abs(out - ds)))})
+        # the kernel writes into the array it is given, whatever its memory layout
+        for lay_, mk in (("Fortran order", lambda: np.full((m, 2), np.nan, order="F")),
+                         ("column slice of a wider buffer", lambda: np.full((m, 3), np.nan)[:, :2]),
+                         ("transposed buffer", lambda: np.full((2, m), np.nan).T)):
+            out2 = mk()
+            try:
+                get_A_induced_numba(J, areas, sites, pts, out2)
+            except Exception as e:  # noqa: BLE001  (a refusal of exotic layouts would be acceptable; silence is not)
+                rep.coverage.setdefault("kernel_layouts_refused", []).append(f"{lay_}: {type(e).__name__}")
+                continue
+            if not np.all(np.isfinite(out2)) or np.max(np.abs(out2 - out)) > 1e-12 * sc:
+                rep.violation(f"accelerated kernel does not fill the output array it is given ({lay_})", {"case": ci, "n": n, "m": m})
         t = HEADER + f"Definition srcs := {srcs_literal(sites, areas, J)}.\n"
         t += f"Eval vm_compute in kernel OpsF srcs {vlist(pts)}.\n"
         texts.append(t)
